@@ -517,6 +517,14 @@ def run_property(prop, tier, seed):
             coverage[k] = v
         broken += r.get("broken", [])
 
+    if failures:
+        cats = {}
+        for f in failures:
+            key = f["kind"] + ": " + re.sub(r"[0-9a-f]{6,}", "H", re.sub(r"\d+", "N", f["detail"]))[:160]
+            cats.setdefault(key, []).append(f.get("idx"))
+        for k, v in sorted(cats.items(), key=lambda kv: -len(kv[1]))[:12]:
+            log("  %5d × %s   (e.g. op %s)" % (len(v), k, v[0]))
+
     # ---- decide -------------------------------------------------------------
     violations = []
     known_hits = {}
